@@ -3,7 +3,7 @@
 # harness (/tmp/hwork/harness) against a scratch copy/worktree of the repository (with a seeded
 # change applied) and run quick checks, without touching /repo, /verif/evidence or /verif/replays.
 R=$(realpath $1); shift
-H=/tmp/hwork/harness; T=/tmp/hwork/target-$(basename $R); O=/tmp/hwork/out-$(basename $R)
+W=${VFY_WORK:-/tmp/hwork}; H=$W/harness; T=$W/target-$(basename $R); O=$W/out-$(basename $R)
 mkdir -p $O
 sed -i "s|^txtpp = { path = \"[^\"]*\"|txtpp = { path = \"$R\"|" $H/Cargo.toml
 ( cd $H && cargo build --release --offline --target-dir $T 2>&1 | grep -E "^error" -A8 | head -20 )
